@@ -6125,6 +6125,10 @@ func (t *Terminal) Loop() error {
 					if wasHidden && t.hasPreviewWindow() {
 						// Restart
 						refreshPreview(t.previewOpts.command)
+						// Make the render loop refresh the preview for whatever is
+						// focused when it runs; later actions of the same chain can
+						// move the cursor back to the previously focused item
+						t.version++
 					} else if t.activePreviewOpts.hidden {
 						// Cancel
 						t.cancelPreview()
